@@ -1,4 +1,4 @@
-import CashewsVerif.Lemmas.KeyForms
+import CashewsVerif.Lemmas.KeyPerm
 import CashewsVerif.Lemmas.KeyUtf8
 /-
 C08 — cache keys are canonical per bound arguments and separate different arguments.
@@ -96,7 +96,8 @@ theorem key_same_when_default_omitted (sig : Sig) (hnd : (sig.map (·.name)).Nod
 positional argument written as a keyword argument instead (inserted anywhere among the keyword
 arguments), `p` being the positional-or-keyword parameter it lands on — get the same key.  Applied
 repeatedly this connects the fully positional form of a call with its fully keyword form; together
-with `key_same_when_default_omitted` it covers the forms the property lists. -/
+with `key_same_when_default_omitted` and `key_same_when_keyword_arguments_reordered` it covers the
+forms the property lists. -/
 theorem key_same_when_positional_written_as_keyword (pre post : List Param) (p : Param) (t : Tmpl) (ctx : Ctx)
     (as : List PyVal) (a : PyVal) (kw kw' : Dict)
     (hlen : pre.length = as.length) (hpre : ∀ q ∈ pre, q.kind = .pos) (hp : p.kind = .pos)
@@ -110,6 +111,30 @@ theorem key_same_when_positional_written_as_keyword (pre post : List Param) (p :
     unfold boundArgs
     rw [bind_last_positional_as_keyword pre post p as a kw kw' hlen hpre hp hnd hk1 hk2 hb']
   exact key_depends_only_on_bound _ t ctx _ _ e (e ▸ hb)
+
+/-- **Keyword arguments in any order.**  A call passes its keyword arguments as a dict; permuting them
+(distinct names) does not change the key — for every signature, template and key context, whether the
+call binds or not.  (The bound `**kwargs` dict comes out permuted; the formatter sorts it.) -/
+theorem key_same_when_keyword_arguments_reordered (sig : Sig) (t : Tmpl) (ctx : Ctx) (as : List PyVal)
+    (kw₁ kw₂ : Dict) (hp : kw₁.Perm kw₂) (hnd : (keys kw₁).Nodup) :
+    cacheKey sig t ctx ⟨as, kw₁⟩ = cacheKey sig t ctx ⟨as, kw₂⟩ :=
+  cacheKey_perm_kwargs sig t ctx as kw₁ kw₂ hp hnd
+
+/-- a dict *argument* has the same field text in every insertion order (Python's `==` on dicts ignores
+the order, and so does the formatter: it sorts the items) -/
+theorem dict_text_same_in_any_insertion_order (l₁ l₂ : Dict) (hp : l₁.Perm l₂) (hnd : (keys l₁).Nodup) :
+    typeFmt (.dict l₁) = typeFmt (.dict l₂) ∧ fmtField (.dict l₁) = fmtField (.dict l₂) :=
+  dict_text_perm l₁ l₂ hp hnd
+
+/-- non-vacuity: `def f(**kw)`: `f(x=1, y=2)` and `f(y=2, x=1)`; the key is `m:f:x:1:y:2` -/
+example : cacheKey [{ name := ['k', 'w'], kind := .varKw }] [.lit ['m'], .field KWARGS] {}
+      ⟨[], [(['y'], .int 2), (['x'], .int 1)]⟩ =
+    cacheKey [{ name := ['k', 'w'], kind := .varKw }] [.lit ['m'], .field KWARGS] {}
+      ⟨[], [(['x'], .int 1), (['y'], .int 2)]⟩ :=
+  key_same_when_keyword_arguments_reordered _ _ _ _ _ _ (List.Perm.swap _ _ _) (by decide)
+
+example : cacheKey [{ name := ['k', 'w'], kind := .varKw }] [.lit ['m'], .field KWARGS] {}
+      ⟨[], [(['y'], .int 2), (['x'], .int 1)]⟩ = some "mx:1:y:2".toList := by decide
 
 /-- non-vacuity: `f(1, b=5)` → `f(1)` and `f(1)` → `f(a=1)` on the D15 signature satisfy the premises -/
 example : cacheKey sigD15 tmplD15 {} ⟨[.int 1], erase [(['b'], .int 5)] ['b']⟩ =
